@@ -7,6 +7,7 @@ package verifrt
 
 import (
 	"fmt"
+	"os"
 	"reflect"
 	"runtime"
 	"runtime/debug"
@@ -50,7 +51,25 @@ type op struct {
 	passive    bool // set by the scheduler: perform the native op, ack, park again (rendezvous)
 }
 
+var checkIdentity = os.Getenv("VERIF_RT_CHECK") != ""
+
+func curGoid() uint64 {
+	var buf [64]byte
+	n := runtime.Stack(buf[:], false)
+	// "goroutine 123 ["
+	var id uint64
+	for _, c := range buf[10:n] {
+		if c < '0' || c > '9' {
+			break
+		}
+		id = id*10 + uint64(c-'0')
+	}
+	return id
+}
+
 type G struct {
+	goid    uint64
+	eager   chan struct{} // non-nil while the goroutine is being run to its first scheduling point by its parent
 	id      string
 	wake    chan struct{}
 	pending *op
@@ -154,8 +173,18 @@ func Reg[T any](ch chan T) chan T {
 
 // park publishes o as g's pending operation and blocks until chosen.
 func (s *Sched) park(g *G, o *op) {
+	if checkIdentity {
+		if id := curGoid(); g.goid != 0 && id != g.goid {
+			panic(fmt.Sprintf("verifrt: OS goroutine %d reached a scheduling point (%s@%s) but the scheduler believes %s (goroutine %d) is running: an uncontrolled goroutine performs controlled operations", id, opNames[o.kind], o.site, g.id, g.goid))
+		}
+	}
 	g.pending = o
-	s.yield <- struct{}{}
+	if e := g.eager; e != nil {
+		g.eager = nil
+		e <- struct{}{} // first scheduling point reached: hand control back to the spawning goroutine
+	} else {
+		s.yield <- struct{}{}
+	}
 	<-g.wake
 	if s.aborting {
 		runtime.Goexit()
@@ -171,6 +200,7 @@ func (s *Sched) passiveWait(g *G) {
 	if s.aborting {
 		runtime.Goexit()
 	}
+	g.hist = mixs(g.hist, "resumed")
 	g.pending = nil
 }
 
@@ -183,6 +213,13 @@ func (s *Sched) spawn(fn func(), id string) *G {
 		if s.aborting {
 			return
 		}
+		if checkIdentity {
+			g.goid = curGoid()
+		}
+		// starting is a transition: a goroutine that has started and is parked at its first operation is in a
+		// different state from one that has not started (its pending operation, hence the set of enabled options,
+		// differs), so it must show in the history the state key is built from
+		g.hist = mixs(g.hist, "started")
 		g.pending = nil
 		defer func() {
 			if s.aborting {
@@ -203,7 +240,12 @@ func (s *Sched) spawn(fn func(), id string) *G {
 				}
 			}
 			g.done = true
-			s.yield <- struct{}{}
+			if e := g.eager; e != nil {
+				g.eager = nil
+				e <- struct{}{}
+			} else {
+				s.yield <- struct{}{}
+			}
 		}()
 		fn()
 	}()
@@ -222,7 +264,16 @@ func Go(fn func()) {
 	}
 	p := s.running
 	p.nspawn++
-	s.spawn(fn, fmt.Sprintf("%s.%d", p.id, p.nspawn))
+	g := s.spawn(fn, fmt.Sprintf("%s.%d", p.id, p.nspawn))
+	// Eager start (a partial-order reduction): the code a goroutine runs before its first scheduling point is local,
+	// so its start commutes with every other transition; every schedule is equivalent to one in which the goroutine
+	// runs to its first scheduling point right after being spawned. Do exactly that, then continue the parent.
+	e := make(chan struct{})
+	g.eager = e
+	s.running = g
+	g.wake <- struct{}{}
+	<-e
+	s.running = p
 }
 
 func (s *Sched) noteSend(g *G, rv reflect.Value) uint64 {
@@ -617,7 +668,11 @@ func (s *Sched) hasSender(ch reflect.Value, except *G) bool {
 func (s *Sched) Key() uint64 {
 	parts := make([]string, 0, len(s.gs)+len(s.chanList))
 	for _, g := range s.gs {
-		parts = append(parts, fmt.Sprintf("g%s:%x:%v", g.id, g.hist, g.done))
+		pk := -1
+		if g.pending != nil {
+			pk = g.pending.kind
+		}
+		parts = append(parts, fmt.Sprintf("g%s:%x:%v:%d", g.id, g.hist, g.done, pk))
 	}
 	for _, ci := range s.chanList {
 		if len(ci.queue) > 0 || ci.closed {
@@ -633,10 +688,11 @@ func (s *Sched) Key() uint64 {
 }
 
 type Result struct {
-	Choices   []int    // choice index at every point with more than one option
-	NOpts     []int    // number of options at those points
-	Keys      []uint64 // state key at those points
-	NLast     []int    // number of leading options that belong to the previously running goroutine (0: it is not enabled)
+	Choices   []int      // choice index at every point with more than one option
+	NOpts     []int      // number of options at those points
+	Keys      []uint64   // state key at those points
+	OptDescs  [][]string // with RunConfig.Audit: the options at those points
+	NLast     []int      // number of leading options that belong to the previously running goroutine (0: it is not enabled)
 	Deadlock  bool
 	Cut       bool // stopped at an already-expanded state
 	Horizon   bool // step horizon exceeded
@@ -656,6 +712,8 @@ type RunConfig struct {
 	MaxSteps  int
 	Trace     bool
 	StallSecs int
+	Audit     bool                      // record the option descriptions (and keys also inside the prefix) at every branching point
+	Chooser   func(step, nopts int) int // beyond the prefix: which option to take (default 0); used by diagnostic random walks
 }
 
 func describe(o Option) string {
@@ -744,10 +802,23 @@ func Run(main func(), cfg RunConfig) Result {
 					res.Cut = true
 					break
 				}
+				if cfg.Chooser != nil {
+					choice = cfg.Chooser(i, len(opts))
+				}
 			}
 			res.Choices = append(res.Choices, choice)
 			res.NOpts = append(res.NOpts, len(opts))
 			res.Keys = append(res.Keys, key)
+			if cfg.Audit {
+				ds := make([]string, len(opts))
+				for k, o := range opts {
+					ds[k] = describe(o)
+				}
+				res.OptDescs = append(res.OptDescs, ds)
+				if key == 0 {
+					res.Keys[len(res.Keys)-1] = s.Key()
+				}
+			}
 			nl := 0
 			for _, o := range opts {
 				if last != nil && o.g == last {
